@@ -399,6 +399,10 @@ func runC19(c *Ctx) {
 		"lands in the discarded transport's queue, where nobody polls any more", 12)
 	swapRegion(c, "C19-D7")
 
+	c.Rule("C19-D8", "nothing is enqueued on a transport that has been abandoned: the transport's Send is called on the transport field itself while transportMu is read-held (shared with C07-D8) — a Send that "+
+		"picked the transport before upgradeTo swapped and drained it puts its packet on a queue nobody polls any more: no wake-up will ever come for it", 2)
+	sendUnderTransportLock(c, "C19-D8")
+
 	c.Rule("C19-D5", "who may consume: packetQueue.get/poll are called only from poll/pollAndSend; pollQueue.get only from poll and QueuedPackets (a second consumer would steal packets)", 3)
 	whoMayCall(c, "C19-D5", `\(\*sio\.packetQueue\)\.get`, []string{"(*sio.packetQueue).poll"}, true)
 	whoMayCall(c, "C19-D5", `\(\*sio\.packetQueue\)\.poll`, []string{"(*sio.packetQueue).pollAndSend"}, true)
